@@ -60,6 +60,9 @@ def langid_parts(prog, rep):
                 base = terms.find_terms(v, lambda t: t[0] == 'pure' and t[1].endswith('::to_vec'))
                 ap = terms.access_path(base[0][2][0]) if base else None
                 if not (ap and ap[0] == nfields):
+                    src = ts.content_source(e, v)
+                    ap = terms.access_path(src) if src is not None else None
+                if not (ap and ap[0] == nfields):
                     bad.append('stored variants are not built from the variants argument: %s' % e.short(v, 140))
         rep.ob('parts:LanguageIdentifier::from_parts', 'PAIR-PARTS', fn, b['span'], 'from_parts stores its arguments field by field (variants through sort + dedup: TS-CTOR)', not bad and segs,
                detail='\n'.join(sorted(set(bad))[:4]))
